@@ -273,3 +273,19 @@ func parseDuration(s *string, def time.Duration) (time.Duration, error) {
 	// Use the user's value, but validate it per the RFC.
 	return time.ParseDuration(*s)
 }
+
+// parseLifetime parses a duration like parseDuration, but also verifies that
+// the result can be carried by a 32-bit NDP lifetime field: it must not be
+// negative and must not exceed ndp.Infinity.
+func parseLifetime(s *string, def time.Duration) (time.Duration, error) {
+	d, err := parseDuration(s, def)
+	if err != nil {
+		return 0, err
+	}
+
+	if d < 0 || d > ndp.Infinity {
+		return 0, fmt.Errorf("lifetime %s must be between 0 and %s, or infinite", d, ndp.Infinity-time.Second)
+	}
+
+	return d, nil
+}
